@@ -9,6 +9,7 @@
   (e) the string operators: sizedstr.c (Gen.SizedStr, REGENERATED) = the byte-list specification, for all byte lists
   (f) the match-list opcodes: exec.c (Gen.MatchOps, REGENERATED) = what the VM model computes on (offset, length) views
   (g) sets as written: an exact item denotes one identifier, `p*` the identifiers with that prefix (Cond.setDenotes)
+  (h) rules disabled through the API: never match, undefined when referenced directly, not matching inside a rule set
 -/
 import YaraModel.Gen.Precedence
 import YaraModel.Lemmas.Cond
@@ -113,7 +114,7 @@ theorem and_or_undefined (env : Env) (l : LEnv) (a b : Expr) (ha : eval env l a 
     eval env l (.or a b) = .bool (asBool (eval env l b)) ∧ eval env l (.or b a) = .bool (asBool (eval env l b)) := by
   simp [eval, ha, vAnd, vOr, asBool, truthy]
 
-example : eval ⟨[], [], 0, [], []⟩ {} (.or (.undefOf .i) .tt) = .bool true := by
+example : eval ⟨[], [], 0, [], [], []⟩ {} (.or (.undefOf .i) .tt) = .bool true := by
   simp [eval, vOr, asBool, truthy]
 
 /-- `not undefined` is undefined; `defined` never is. -/
@@ -182,7 +183,7 @@ theorem of_quantifiers (env : Env) (l : LEnv) (qe : Expr) (set : List Nat) :
   · intro p
     simp [eval, pctHolds]
 
-example : eval ⟨[[(0, 2)], []], [], 2, [], []⟩ {} (.ofStr .any (.int 0) [0, 1]) = .bool true := by
+example : eval ⟨[[(0, 2)], []], [], 2, [], [], []⟩ {} (.ofStr .any (.int 0) [0, 1]) = .bool true := by
   simp [eval, quantOf, quantHolds, strFound]
 
 /-- `for Q i in (a..b) : (body)` over a non-empty range is bounded quantification of the body over a ≤ i ≤ b;
@@ -410,6 +411,66 @@ example : setDenotes ["$a", "$ab", "$a1"] [.exact "$a"] = [0] ∧ setDenotes ["$
     setDenotes ["$ab", "$a", "$a1"] [.exact "$a", .wild "$a"] = [1, 0, 1, 2] ∧ setDenotes ["$a", "$ab", "$a1"] [.them] = [0, 1, 2] ∧
     setDenotes ["rab", "ra"] [.exact "ra"] = [1] ∧ setDenotes ["rab", "ra"] [.wild "ra"] = [0, 1] := by decide
 
+/-! ## (h) rules switched off through the API (yr_rule_disable) -/
+
+private theorem evalRulesD_prefix (blocks : List (Nat × Bytes)) (filesize : Int) (ext : List (String × Val)) (dis : List Nat) :
+    ∀ (rs : List Rule) (acc : List Bool) (k : Nat), k < acc.length →
+      (evalRulesD blocks filesize ext dis rs acc).getD k false = acc.getD k false := by
+  intro rs
+  induction rs with
+  | nil => intro acc k _; rfl
+  | cons r rs ih =>
+    intro acc k hk
+    simp only [evalRulesD]
+    rw [ih _ k (by simp; omega)]
+    simp only [List.getD_eq_getElem?_getD]
+    rw [List.getElem?_append_left hk]
+
+private theorem disabled_rule_never_matches_aux (blocks : List (Nat × Bytes)) (filesize : Int) (ext : List (String × Val)) (dis : List Nat) :
+    ∀ (rs : List Rule) (acc : List Bool) (k : Nat), dis.contains k = true → acc.length ≤ k →
+      (evalRulesD blocks filesize ext dis rs acc).getD k false = false := by
+  intro rs
+  induction rs with
+  | nil =>
+    intro acc k _ hk
+    simp only [evalRulesD, List.getD_eq_getElem?_getD]
+    rw [List.getElem?_eq_none (by omega)]; rfl
+  | cons r rs ih =>
+    intro acc k hd hk
+    simp only [evalRulesD]
+    by_cases he : k = acc.length
+    · subst he
+      rw [evalRulesD_prefix _ _ _ _ rs _ acc.length (by simp)]
+      have hm : acc.length ∈ dis := by simpa using hd
+      simp [hm]
+    · exact ih _ k hd (by simp; omega)
+/-- a disabled rule never matches, whatever its condition -/
+theorem disabled_rule_never_matches (blocks : List (Nat × Bytes)) (filesize : Int) (ext : List (String × Val)) (dis : List Nat)
+    (rs : List Rule) (k : Nat) (hd : dis.contains k = true) :
+    (evalRulesD blocks filesize ext dis rs []).getD k false = false :=
+  disabled_rule_never_matches_aux blocks filesize ext dis rs [] k hd (Nat.zero_le _)
+
+/-- what the other rules see of a disabled rule: a direct reference is undefined (docs/capi.rst); inside a rule set it
+    counts as not matching — `all of (r)` is false, `none of (r)` true, `N of (..)` / `P% of (..)` count the others — and
+    with no rule disabled `evalRulesD` is `evalRules` -/
+theorem disabled_rule_semantics (env : Env) (l : LEnv) (k : Nat) (hd : env.disabled.contains k = true) :
+    eval env l (.ruleRef k) = .undef ∧ env.ruleMatched k = false ∧
+    eval env l (.ofRules .all (.int 0) [k]) = .bool false ∧ eval env l (.ofRules .none (.int 0) [k]) = .bool true ∧
+    (∀ set, (k :: set).countP env.ruleMatched = set.countP env.ruleMatched) := by
+  have hmem : k ∈ env.disabled := by simpa using hd
+  have hm : env.ruleMatched k = false := by simp [Env.ruleMatched, hmem]
+  refine ⟨by simp [eval, hmem], hm, ?_, ?_, ?_⟩
+  · simp [eval, hm, quantOf, quantHolds]
+  · simp [eval, hm, quantOf, quantHolds]
+  · intro set; simp [List.countP_cons, hm]
+
+theorem evalRulesD_nil_is_evalRules (blocks : List (Nat × Bytes)) (filesize : Int) (ext : List (String × Val)) :
+    ∀ (rs : List Rule) (acc : List Bool), evalRulesD blocks filesize ext [] rs acc = evalRules blocks filesize ext rs acc := by
+  intro rs
+  induction rs with
+  | nil => intro acc; rfl
+  | cons r rs ih => intro acc; simp [evalRulesD, evalRules, ih]
+
 /-! ## (d) compile_correct -/
 
 /- **compile_correct** — FULL STATEMENT (long-term goal):
@@ -456,7 +517,7 @@ theorem compile_correct_partial (env : Env) (henv : EnvOk env) (cond : Expr)
   rw [← tw_truth htw]
 
 /-- non-vacuity (loop-free): a string query, a comparison and a short-circuit `and` -/
-example : let env : Env := ⟨[[(0, 2), (5, 2)]], [(0, [97, 98, 0, 0, 0, 97, 98])], 7, [], []⟩
+example : let env : Env := ⟨[[(0, 2), (5, 2)]], [(0, [97, 98, 0, 0, 0, 97, 98])], 7, [], [], []⟩
     let cond := Expr.and (.found (.id 0)) (.cmp .lt (.count (.id 0)) (.int 3))
     EnvOk env ∧ WF env (ctxOfEnv env) {} cond ∧ ruleVerdict env cond = true := by
   refine ⟨?_, ?_, ?_⟩
@@ -469,7 +530,7 @@ example : let env : Env := ⟨[[(0, 2), (5, 2)]], [(0, [97, 98, 0, 0, 0, 97, 98]
 
 /-- non-vacuity (nested loops): `for any i in (2..2) : (for all of ($a,$b) : (@[i] == 5 or not $))` on a buffer where
     `$a` matches at 0 and 5 and `$b` does not match -/
-example : let env : Env := ⟨[[(0, 2), (5, 2)], []], [(0, [97, 98, 0, 0, 0, 97, 98])], 7, [], []⟩
+example : let env : Env := ⟨[[(0, 2), (5, 2)], []], [(0, [97, 98, 0, 0, 0, 97, 98])], 7, [], [], []⟩
     -- for any i in (2..2) : ( for all of ($a, $b) : ( @[i] == 5 or not $ ) )
     let cond := Expr.forRange .any (.int 0) (.int 2) (.int 2)
       (.forOf .all (.int 0) [0, 1] (.or (.cmp .eq (.offset .cur (.var 0)) (.int 5)) (.not (.found .cur))))
@@ -486,7 +547,7 @@ example : let env : Env := ⟨[[(0, 2), (5, 2)], []], [(0, [97, 98, 0, 0, 0, 97,
 
 /-- non-vacuity (integer-valued loop body, the situation of the repaired finding F43):
     `for all i in (1..1) : (#a)` with three matches of `$a` — the body's value 3 counts once -/
-example : let env : Env := ⟨[[(0, 2), (2, 2), (6, 2)]], [(0, [97, 98, 97, 98, 0, 0, 97, 98])], 8, [], []⟩
+example : let env : Env := ⟨[[(0, 2), (2, 2), (6, 2)]], [(0, [97, 98, 97, 98, 0, 0, 97, 98])], 8, [], [], []⟩
     let cond := Expr.forRange .all (.int 0) (.int 1) (.int 1) (.count (.id 0))
     EnvOk env ∧ WF env (ctxOfEnv env) {} cond ∧ ruleVerdict env cond = true := by
   refine ⟨?_, ?_, ?_⟩
@@ -499,7 +560,7 @@ example : let env : Env := ⟨[[(0, 2), (2, 2), (6, 2)]], [(0, [97, 98, 97, 98, 
 
 /-- non-vacuity (range ending at INT64_MAX, the situation of the repaired finding F45):
     `for all i in (9223372036854775807..9223372036854775807) : (i > 0)` is true -/
-example : let env : Env := ⟨[], [], 0, [], []⟩
+example : let env : Env := ⟨[], [], 0, [], [], []⟩
     let cond := Expr.forRange .all (.int 0) (.int 9223372036854775807) (.int 9223372036854775807)
       (.cmp .gt (.var 0) (.int 0))
     EnvOk env ∧ WF env (ctxOfEnv env) {} cond ∧ ruleVerdict env cond = true := by
@@ -510,7 +571,7 @@ example : let env : Env := ⟨[], [], 0, [], []⟩
   · simp [ruleVerdict, eval, asBool, truthy, intRange, loopHolds, quantOf, quantHolds, countTrue, vCmp, cmpInt]
 
 /-- non-vacuity (`P% of`, inside compile_correct since the repair of F44): `50% of ($a, $b)` with only `$a` found -/
-example : let env : Env := ⟨[[(0, 2)], []], [(0, [97, 98])], 2, [], []⟩
+example : let env : Env := ⟨[[(0, 2)], []], [(0, [97, 98])], 2, [], [], []⟩
     let cond := Expr.pctStr (.int 50) [0, 1]
     EnvOk env ∧ WF env (ctxOfEnv env) {} cond ∧ ruleVerdict env cond = true := by
   refine ⟨?_, ?_, ?_⟩
@@ -520,5 +581,19 @@ example : let env : Env := ⟨[[(0, 2)], []], [(0, [97, 98])], 2, [], []⟩
     decide
   · simp [WF, tyOf, UNDEF, INT64_MIN, INT64_MAX]
   · simp [ruleVerdict, eval, pctHolds, asBool, truthy, strFound, Env.matchesOf]
+
+/-- non-vacuity (a disabled rule inside a rule set, the situation of the repaired finding F68): rule 0 would match but is
+    disabled; `all of (r0)` compiles to `PUSH_U (all); PUSH_U (end marker); PUSH_RULE 0; PUSH 0; OR; OF` and is false, a direct reference is undefined -/
+example : let env : Env := ⟨[], [], 0, [], [true], [0]⟩
+    let cond := Expr.ofRules .all (.int 0) [0]
+    EnvOk env ∧ WF env (ctxOfEnv env) {} cond ∧ ruleVerdict env cond = false ∧ eval env {} (.ruleRef 0) = .undef ∧
+    compile (ctxOfEnv env) cond = [.pushU, .pushU, .pushRule 0, .push 0, .bin .OP_OR, .of_ true] := by
+  refine ⟨?_, ?_, ?_, ?_, ?_⟩
+  · intro b hb
+    simp at hb
+  · simp [WF]
+  · simp [ruleVerdict, eval, Env.ruleMatched, quantOf, quantHolds, asBool, truthy]
+  · simp [eval]
+  · simp [compile, quantCode, ruleMember]
 
 end YaraModel.Cond
